@@ -22,8 +22,9 @@
 (*                 points join (a point removed earlier never gets a       *)
 (*                 level), and zl[p] keeps, for the remaining candidates   *)
 (*                 only, the dense rank of their level (= arrival order).  *)
-(*                 zgiven.on = FALSE: any ZLevel in 0..ZMax (model checking);  *)
-(*                 zgiven = [on, lv, stop]: recorded   levels (replay).      *)
+(*                 zgiven.on = FALSE: any ZLevel in 0..ZMax (model         *)
+(*                 checking); zgiven = [on |-> TRUE, lv, stop]: the        *)
+(*                 recorded levels and stop level (replay).                *)
 (*      stopLevel  first round with outlier_z <= min_zscore (-1: not yet   *)
 (*                 reached; lazily chosen, forced at round ZMax)           *)
 (*      zkey[p]    rank of z_p, refines the visiting order of same-level   *)
